@@ -49,10 +49,12 @@ const (
 	opPair
 	opCMap
 	opOwnFile
+	opDecodeB          // Decode as the second Go type (*ViewB)
+	opDecodeExclusiveB // DecodeExclusive as the second Go type
 	nOpKinds
 )
 
-var opKindNames = []string{"Get", "DecodeStream", "Decode", "DecodeExclusive", "StoreOrLoadPair", "predefined-CMap", "own-Writer+Reader"}
+var opKindNames = []string{"Get", "DecodeStream", "Decode", "DecodeExclusive", "StoreOrLoadPair", "predefined-CMap", "own-Writer+Reader", "Decode-ViewB", "DecodeExclusive-ViewB"}
 
 type stressOp struct {
 	kind int
@@ -224,7 +226,7 @@ func expandOps(c *StressCase, f *stressFile) [][]stressOp {
 				op.arg = r.Intn(len(f.streams))
 			case opDecode:
 				op.arg = r.Intn(len(stressTargets))
-			case opDecodeExclusive:
+			case opDecodeExclusive, opDecodeExclusiveB, opDecodeB:
 				op.arg = r.Intn(4) // S F A B: never the mutually referential objects
 			case opPair:
 				op.arg = []int{0, 3}[r.Intn(2)] // S or B: the reference that holds the object
@@ -250,9 +252,9 @@ type stressResult struct {
 	ranFn  bool
 }
 
-type stressFnErr struct{}
+type stressFnErr struct{ tp byte }
 
-func (*stressFnErr) Error() string { return "decode function failed" }
+func (e *stressFnErr) Error() string { return fmt.Sprintf("View%c decode function failed", e.tp) }
 
 // stressRun is one execution (sequential or concurrent) of the operation lists
 // on one Reader and one Extractor.
@@ -298,7 +300,7 @@ func (s *stressRun) fnA(g int, ran *bool, dxKey *key) func(pdf.Cursor, pdf.Objec
 		}
 		id, _ := dict["Id"].(pdf.Name)
 		if dict["Bad"] != nil {
-			return nil, &stressFnErr{}
+			return nil, &stressFnErr{'A'}
 		}
 		val, _ := dict["Val"].(pdf.Integer)
 		v := &ViewA{Serial: serial, Obj: string(id), Val: int(val)}
@@ -320,6 +322,27 @@ func (s *stressRun) fnA(g int, ran *bool, dxKey *key) func(pdf.Cursor, pdf.Objec
 		return v, nil
 	}
 	return fn
+}
+
+// fnB is the plain decode function for *ViewB.
+func (s *stressRun) fnB(g int, ran *bool, dxKey *key) func(pdf.Cursor, pdf.Object, bool) (*ViewB, error) {
+	return func(c pdf.Cursor, obj pdf.Object, _ bool) (*ViewB, error) {
+		*ran = true
+		if dxKey != nil {
+			s.dxRan[g][*dxKey]++
+		}
+		serial := int(s.serial.Add(1))
+		dict, _ := obj.(pdf.Dict)
+		if dict == nil {
+			return nil, fmt.Errorf("decode function got %T", obj)
+		}
+		if dict["Bad"] != nil {
+			return nil, &stressFnErr{'B'}
+		}
+		id, _ := dict["Id"].(pdf.Name)
+		val, _ := dict["Val"].(pdf.Integer)
+		return &ViewB{Serial: serial, Obj: string(id), Val: int(val)}, nil
+	}
 }
 
 func sumObject(obj pdf.Object) uint64 {
@@ -392,6 +415,21 @@ func (s *stressRun) do(g int, op stressOp) (res stressResult) {
 			return stressResult{failed: true, errMsg: err.Error(), ranFn: res.ranFn}
 		}
 		res.a = v
+		s.seen[g][k] = append(s.seen[g][k], v)
+	case opDecodeB, opDecodeExclusiveB:
+		ref := s.f.target[stressTargets[op.arg]]
+		k := key{ref, 'B'}
+		var v *ViewB
+		var err error
+		if op.kind == opDecodeB {
+			v, err = pdf.Decode(pdf.CursorAt(s.x, nil), ref, s.fnB(g, &res.ranFn, nil))
+		} else {
+			v, err = pdf.DecodeExclusive(pdf.CursorAt(s.x, nil), ref, s.fnB(g, &res.ranFn, &k))
+		}
+		if err != nil {
+			return stressResult{failed: true, errMsg: err.Error(), ranFn: res.ranFn}
+		}
+		res.b = v
 		s.seen[g][k] = append(s.seen[g][k], v)
 	case opPair:
 		ref := s.f.target[stressTargets[op.arg]]
@@ -616,13 +654,21 @@ func checkStress(c *StressCase) error {
 				return fmt.Errorf("%s: result differs from the sequential run", name)
 			}
 			target := ""
-			if op.kind == opDecode || op.kind == opDecodeExclusive || op.kind == opPair {
+			if op.kind == opDecode || op.kind == opDecodeExclusive || op.kind == opPair || op.kind == opDecodeB || op.kind == opDecodeExclusiveB {
 				target = stressTargets[op.arg]
 			}
 			if h.a != nil && w.a != nil && target != "X" && target != "Y" {
 				if h.a.Obj != w.a.Obj || h.a.Val != w.a.Val {
 					return fmt.Errorf("%s: decoded (%s,%d) concurrently, (%s,%d) sequentially", name, h.a.Obj, h.a.Val, w.a.Obj, w.a.Val)
 				}
+			}
+			if h.b != nil && w.b != nil && (h.b.Obj != w.b.Obj || h.b.Val != w.b.Val) {
+				return fmt.Errorf("%s: decoded (%s,%d) concurrently, (%s,%d) sequentially", name, h.b.Obj, h.b.Val, w.b.Obj, w.b.Val)
+			}
+			if target == "F" && h.failed && h.errMsg != w.errMsg {
+				// a failing decode function names its type: a caller must see
+				// the failure of ITS function
+				return fmt.Errorf("%s: fails with %q concurrently, with %q sequentially", name, h.errMsg, w.errMsg)
 			}
 			if (h.a == nil) != (w.a == nil) || (h.b == nil) != (w.b == nil) {
 				return fmt.Errorf("%s: nil-ness of the result differs from the sequential run", name)
@@ -674,14 +720,17 @@ func checkStress(c *StressCase) error {
 				}
 			}
 		}
-		// DecodeExclusive: the function ran at most once for a key that decodes
+		// DecodeExclusive: per (reference, type) the function ran at most
+		// once for a key that decodes
 		if name != "F" {
-			total := 0
-			for g := 0; g < G; g++ {
-				total += con.dxRan[g][key{ref, 'A'}]
-			}
-			if total > 1 {
-				return fmt.Errorf("the decode function ran %d times for the DecodeExclusive calls on %s", total, name)
+			for _, tp := range []byte{'A', 'B'} {
+				total := 0
+				for g := 0; g < G; g++ {
+					total += con.dxRan[g][key{ref, tp}]
+				}
+				if total > 1 {
+					return fmt.Errorf("the View%c decode function ran %d times for the DecodeExclusive calls on %s", tp, total, name)
+				}
 			}
 		}
 	}
@@ -704,7 +753,7 @@ var stressProp = &vt.Prop[StressCase]{
 			Seed:       rapid.Uint64().Draw(t, "seed"),
 			Goroutines: rapid.IntRange(8, 32).Draw(t, "goroutines"),
 			Ops:        rapid.IntRange(2, 12).Draw(t, "ops"),
-			Mix:        rapid.OneOf(rapid.Just((1<<nOpKinds)-1), rapid.Just(1<<opDecode|1<<opDecodeExclusive|1<<opPair), rapid.IntRange(1, (1<<nOpKinds)-1)).Draw(t, "mix"),
+			Mix:        rapid.OneOf(rapid.Just((1<<nOpKinds)-1), rapid.Just(1<<opDecode|1<<opDecodeExclusive|1<<opPair|1<<opDecodeB|1<<opDecodeExclusiveB), rapid.Just(1<<opDecodeExclusive|1<<opDecodeExclusiveB), rapid.IntRange(1, (1<<nOpKinds)-1)).Draw(t, "mix"),
 		}
 	},
 	Check: checkStress,
